@@ -99,4 +99,10 @@ CLAIMED = {
   "text": "Exhaustive over the abstract header alphabet with symbolic lengths/payloads: every combination is refused or accepted as RFC 6455 section 5 requires (first-violated-rule table, unspecified where the RFC/7692 interplay is open); limit decision = accumulated+frame length vs limit with no wrap-around; protocol errors send Close 1002 and are latched by both callers; close codes/UTF-8/ping echo checked structurally. Long frame sequences are not enumerated.",
   "note": "Conn.read, the transport and masking are contracts; decision table transcribed from RFC 6455 section 5.",
  },
+
+ "C16": {
+  "technique": "switch/table extraction over go/types (sibling agreement sign<->verify, wrap<->unwrap, constructor<->codec, against transcribed RFC 7518 tables), guard/dominator rules for the verification and decryption gates, value-flow rules for the authenticated bytes",
+  "text": "Sound static decision of the repository's own JOSE glue: algorithm tables agree between siblings and with RFC 7518, payload/plaintext are released only behind the verification/decryption/tag-comparison gates, failure is decided by errors not by plaintext nil-ness, authenticated bytes are the received header, fixed-width ECDSA components. The cryptographic behaviour across the algorithm matrix and bit flips is not decided (crypto/* trusted).",
+  "note": "Tables must stay switch statements (otherwise 'undecided'); RFC 7518 tables transcribed in DESIGN Appendix B.",
+ },
 }
